@@ -24,6 +24,9 @@
 (* Named deviations (behaviour of the pinned commit):                      *)
 (*   "dir_del_missing_silent"  dir_archive.__delitem__ of a missing key     *)
 (*                             did not raise KeyError                       *)
+(*   "update_partial_on_failure"  update() of dir / sqlite archives stores  *)
+(*                             item by item: a failing item leaves the     *)
+(*                             earlier ones written                         *)
 (*   FNID = 1 ("dir_fname_alias")  str(1) = str('1'), 'a-b' -> 'a_b':      *)
 (*                             distinct keys share a directory              *)
 (* Refinement: every step satisfies every clause of DictP (StepOK).        *)
@@ -119,6 +122,23 @@ SetDefault(l, k, v) == /\ UNCHANGED ex
                           ELSE Finish([op |-> "setdefault", k |-> k, v |-> v, ri |-> v], Store(st[l], k, v), l)
 Update(l, k, v, k2, v2) == /\ UNCHANGED ex
                            /\ Finish([op |-> "update", k |-> k, v |-> v, k2 |-> k2, v2 |-> v2], Store(Store(st[l], k, v), k2, v2), l)
+\* a value the encoding cannot store: the plain dict keeps it (a dict accepts anything), the null archive drops it,
+\* every stored archive fails - and a failing operation changes nothing
+SetBad(l, k) == /\ UNCHANGED ex
+                /\ IF BACKEND = "dict" THEN Finish([op |-> "setbad", k |-> k], Store(st[l], k, BAD), l)
+                   ELSE IF BACKEND = "null" THEN Finish([op |-> "setbad", k |-> k], st[l], l)
+                   ELSE Finish([op |-> "setbad", k |-> k, exc |-> "error"], st[l], l)
+\* update({k: v, k2: <unstorable>}): file_archive encodes the whole dictionary before it replaces the file (atomic);
+\* dir_archive and the sqlite table store item by item - deviation "update_partial_on_failure": the items written
+\* before the failing one stay
+UpdateBad(l, k, v, k2) ==
+  LET e0 == [op |-> "updatebad", k |-> k, v |-> v, k2 |-> k2]
+  IN /\ UNCHANGED ex
+     /\ IF BACKEND = "dict" THEN Finish(e0, Store(Store(st[l], k, v), k2, BAD), l)
+        ELSE IF BACKEND = "null" THEN Finish(e0, st[l], l)
+        ELSE IF BACKEND \in {"dir", "sql"} /\ "update_partial_on_failure" \in Deviations
+             THEN Finish(e0 @@ [exc |-> "error"], Store(st[l], k, v), l)
+        ELSE Finish(e0 @@ [exc |-> "error"], st[l], l)
 Clear(l) == /\ UNCHANGED ex /\ Finish([op |-> "clear"], EmptySt, l)
 Copy(l, o) == /\ ~ex[o] /\ ex' = [ex EXCEPT ![o] = TRUE]
               /\ LET st2 == [st EXCEPT ![o] = st[l]]
@@ -154,6 +174,8 @@ Next ==
      \/ "popkeysd" \in OPS /\ \E ks \in KeySeqs : PopKeysD(l, ks, 77)
      \/ "setdefault" \in OPS /\ \E k \in 1..NK, j \in 1..NV : SetDefault(l, k, Val(k, j))
      \/ "update" \in OPS /\ \E j \in 1..NV : Update(l, 1, Val(1, j), 2, Val(2, j))
+     \/ "setbad" \in OPS /\ \E k \in 1..NK : SetBad(l, k)
+     \/ "updatebad" \in OPS /\ \E j \in 1..NV : UpdateBad(l, 1, Val(1, j), 2)
      \/ "clear" \in OPS /\ Clear(l)
      \/ "copy" \in OPS /\ l = 1 /\ Copy(l, NL)
      \/ \E w \in {"eq", "ne"} : w \in OPS /\ \E o \in Live \ {l} : Eq(l, o, w)
